@@ -29,6 +29,7 @@ type Obligation struct {
 	apps      []appRec
 	entry     *State
 	skolems   map[string]Value
+	resultDyn types.Type // dynamic type of the first result when it is an interface holding a module type
 }
 
 type schema struct {
@@ -36,6 +37,7 @@ type schema struct {
 	expr Expr
 	env  *Env
 	text string
+	st   *State // when set: the state the fact speaks about (loop head snapshot)
 }
 
 func (x *Exec) evalClause(st *State, env *Env, cl *Clause) *Term {
@@ -80,6 +82,7 @@ func (x *Exec) oblige(st *State, name string, goal *Term, what string) {
 		o.apps = st.apps
 		o.entry = x.entryState
 		o.skolems = x.curSkolems
+		o.resultDyn = x.curResultDyn
 		x.obls = append(x.obls, o)
 	}
 }
@@ -96,7 +99,7 @@ func (x *Exec) assumptions(st *State) []*Term {
 		}
 	}
 	work := st
-	if len(x.schemas) > 0 {
+	if len(x.schemas)+len(st.schemas) > 0 {
 		work = st.fork()
 		insts := x.instantiate(work)
 		for _, t := range insts {
@@ -124,7 +127,8 @@ func (x *Exec) instantiate(st *State) []*Term {
 	defer func() { x.specMode-- }()
 	for round := 0; round < 2; round++ {
 		apps := append([]appRec{}, st.apps...)
-		for _, sc := range x.schemas {
+		all := append(append([]*schema{}, x.schemas...), st.schemas...)
+		for _, sc := range all {
 			// candidate argument tuples per variable
 			cands := make([][]Value, len(sc.vars))
 			for i, v := range sc.vars {
@@ -149,8 +153,19 @@ func (x *Exec) instantiate(st *State) []*Term {
 					key += "|" + valueString(cands[i][idx[i]])
 				}
 				if !x.instSeen(st, key) {
-					t := x.evalBool(st, env, sc.expr)
-					out = append(out, t)
+					if sc.st != nil {
+						// evaluate against the snapshot heap, but collect the applications / axioms here
+						tmp := sc.st.fork()
+						tmp.apps = st.apps
+						tmp.ax = st.ax
+						t := x.evalBool(tmp, env, sc.expr)
+						st.apps = tmp.apps
+						st.ax = tmp.ax
+						out = append(out, t)
+					} else {
+						t := x.evalBool(st, env, sc.expr)
+						out = append(out, t)
+					}
 				}
 				k := len(idx) - 1
 				for k >= 0 {
@@ -318,7 +333,7 @@ func (x *Exec) applyContract(st *State, fn *ssa.Function, cts []*Contract, args 
 			if len(cl.vars) > 0 {
 				// quantified postcondition: becomes an instantiable schema for the caller
 				x.schemaCtr++
-				x.schemas = append(x.schemas, &schema{vars: cl.vars, expr: cl.expr, env: env, text: fmt.Sprintf("%s@%d:%s", ct.label(), x.schemaCtr, cl.text)})
+				st.schemas = append(st.schemas, &schema{vars: cl.vars, expr: cl.expr, env: env, text: fmt.Sprintf("%s@%d:%s", ct.label(), x.schemaCtr, cl.text)})
 				continue
 			}
 			st.assume(x.evalBool(st, env, cl.expr))
@@ -334,7 +349,9 @@ func (x *Exec) applyContract(st *State, fn *ssa.Function, cts []*Contract, args 
 func bindResults(env *Env, fn *ssa.Function, vals []Value) {
 	res := fn.Signature.Results()
 	for i := 0; i < res.Len(); i++ {
-		env.vars[fmt.Sprintf("r%d", i)] = vals[i]
+		if _, clash := env.lookup(fmt.Sprintf("r%d", i)); !clash {
+			env.vars[fmt.Sprintf("r%d", i)] = vals[i]
+		}
 		if n := res.At(i).Name(); n != "" && n != "_" {
 			env.vars[n] = vals[i]
 		}
@@ -579,6 +596,12 @@ func (x *Exec) verifyContract(ct *Contract) (err error) {
 		if f.st.infeasible() {
 			continue
 		}
+		x.curResultDyn = nil
+		if rv, ok := f.env.lookup("r"); ok {
+			if ifc, ok := rv.(*Iface); ok && ifc.dyn != nil {
+				x.curResultDyn = ifc.dyn
+			}
+		}
 		for k, cl := range ct.ensures {
 			lbl := cl.label
 			if lbl == "" {
@@ -626,6 +649,20 @@ func (x *Exec) evalLetFork(st *State, env *Env, e Expr) []specOut {
 		return []specOut{{st, x.eval(st, env, e)}}
 	}
 	sel, isSel := call.fun.(*ESel)
+	if id, isId := call.fun.(*EIdent); isId {
+		if _, bound := env.lookup(id.name); !bound {
+			_, isSpec := x.specs[id.name]
+			switch id.name {
+			case "sq", "abs", "min", "max", "sqrt", "ite", "real", "floor", "len", "old", "pre", "isnil", "sin", "cos", "nsent", "sent", "samecell":
+				isSpec = true
+			}
+			if isSpec {
+				x.specMode++
+				defer func() { x.specMode-- }()
+				return []specOut{{st, x.eval(st, env, e)}}
+			}
+		}
+	}
 	x.specMode++
 	var args []Value
 	for _, a := range call.args {
